@@ -37,6 +37,9 @@ CHECKS = {
  "C17": dict(cat="model_checking", ref="7 C17", tech="TLA+ model with pending-ACK list, closeOnce and PID-clear, TLC exhaustive to depth 6-7; all behaviours to depth 4-5 replayed on the real client; random NoWait/Wait/Close histories incl. concurrent Close judged by TLC",
              text="The monitor keeps the scripted frames of every unconsumed NoWait request: WaitForPendingACKs must consume exactly the frames up to each ACK in order, stop at and return the first kernel error, and consume nothing already consumed; Close must call Netlink.Close exactly once over the client's life, preceded by exactly one AUDIT_SET{mask=PID,pid=0} iff SetPID was used, and later (or concurrent) Close calls must send and close nothing; slices returned by GetRules must read the same after later traffic through the shared buffer.",
              note="Trusted: TLC, the simulated kernel's frame accounting (pops/left), the generator's guarantee that NoWait scripts put noise only before the ACK. Concurrent Close is run as real goroutines (2-4 callers), not enumerated."),
+ "C18": dict(cat="model_checking", ref="7 C18", tech="TLA+ framing oracle (AuditWire!Frame) and Netlink model (atomic counter, N senders) checked by TLC; TLC trace validation of a real NetlinkClient against the kernel's verbatim echo on NETLINK_ROUTE, a user-space NETLINK_USERSOCK sender (unicast and multicast), the audit parser on all lengths; concurrent Send under -race",
+             text="TLC proves on the model that N senders sharing the atomic counter get distinct, increasing, contiguous numbers (and rejects the load/store variant). On the real code TLC compares, for ~1000 (type, flags, pid, payload length 0..8970) requests, the kernel's echo of what was on the wire with Frame(type, flags, returned seq, port, payload); checks 8x25 concurrent sends per round for distinct numbers and intact frames; requires an error and no parser call for every datagram of length 1..64 from a non-kernel sender, unicast and multicast; and checks the parser on every length 0..64.",
+             note="Trusted: the kernel's netlink_ack echo semantics, /proc/net/netlink for the port id, TLC, the race detector. No schedule control over Send (one atomic instruction). If netlink sockets cannot be opened the socket sub-checks are skipped and recorded in the evidence."),
 }
 
 NOT_YET = {
